@@ -243,6 +243,13 @@ def fgrid(rng, tier):
                         bits = rng.choice([64, 80, 128, 256])
                         yield "gmp_snprintf_F %x %s %s%x %s" % (rng.choice([0x200, 0x200, 0x200, 7, 1, 0]), sbytes("%" + fl + w + p + "F" + c),
                                                                 "".join(x + " " for x in st), bits, fval(m, e))
+    # tiny values (limb exponent <= -2) with a fixed precision that reaches their digits: the digit-count estimate of
+    # doprntf.c (leading zeros from the limb exponent) decides how many digits mpf_get_str is asked for
+    for e in list(range(-70, -470, -29 if tier == "quick" else -7)):
+        for m in (1, 11, 12345, rng.getrandbits(40) | 1, rng.getrandbits(64) | 1):
+            for p in (".25", ".59", ".60", ".80", ".120", ".150"):
+                for c in ("f", "e", "g"):
+                    yield "gmp_snprintf_F 200 %s %x %s" % (sbytes("%" + rng.choice(["", "#", "+"]) + p + "F" + c), rng.choice([64, 128, 256]), fval(m * rng.choice([1, -1]), e))
     for fam in UNSIZED + ["gmp_printf"]:
         for f, ty, a in [("%Ff", "F", ["80 " + fval(5, -1)]), ("[%d|%10.3Fe|%Zd|%s]", "iFZs", ["-3", "80 " + fval(12345, -3), "-7", sbytes("x")]),
                          ("%Fg %Fg", "FF", ["80 " + fval(1, -20), "40 " + fval(10 ** 8, 0)]), ("%n%.2Ff%n", "nFn", ["80 " + fval(-7, -2)])]:
